@@ -7,7 +7,7 @@ THOROUGH_MODULES = ["RkVerif.Model.C10", "RkVerif.Lemmas.C10"]
 _SRCS = ["rkcommon/utility/ParameterizedObject.cpp", "rkcommon/utility/demangle.cpp"]
 HARNESSES = [
     dict(name="c10", src="harness/c10.cpp", repo_srcs=_SRCS, args=[m], mode=m)
-    for m in ("ii", "ss", "si", "is")
+    for m in ("ii", "ss", "si", "is", "ti")
 ]
 # one binary, four instantiations
 for h in HARNESSES:
@@ -25,7 +25,7 @@ EXPLAIN = ("observations (returned values, throw/no-throw, iteration order, quer
            "ParameterizedObject differ from the Lean model for which keys_nodup, flatmap_refines, "
            "param_type_mismatch_default and param_query_flag are proved")
 
-PTYPES = ["int", "float", "string", "bool", "long", "vec3f"]
+PTYPES = ["int", "float", "string", "bool", "long", "vec3f", "key"]
 
 
 def _tok(kind, x):
@@ -34,7 +34,7 @@ def _tok(kind, x):
 
 def gen_cases(rng, tier, h):
     mode = h["mode"]
-    kk, vk = mode[0], mode[1]
+    kk, vk = ("i" if mode[0] == "t" else mode[0]), mode[1]
     n = 400 if tier == "quick" else 6000
     cases = []
     for _ in range(n):
@@ -43,7 +43,8 @@ def gen_cases(rng, tier, h):
             k = _tok(kk, rng.randrange(4))
             v = _tok(vk, rng.randrange(4)) if vk == "s" else str(rng.randrange(1, 9))
             r = rng.random()
-            if r < 0.22: c.append("set %s %s" % (k, v))
+            if mode == "ti" and r < 0.08: c.append("set_throw %s %s" % (k, v))
+            elif r < 0.22: c.append("set %s %s" % (k, v))
             elif r < 0.32: c.append("idx " + k)
             elif r < 0.42: c.append("at " + k)
             elif r < 0.48: c.append("at_set %s %s" % (k, v))
@@ -62,7 +63,7 @@ def gen_cases(rng, tier, h):
         for _ in range(rng.randint(3, 30)):
             nm = "p" + "abcd"[rng.randrange(4)]
             t = rng.pick(PTYPES[:3]) if rng.chance(0.7) else rng.pick(PTYPES)
-            v = str(rng.randrange(1, 9)) if t != "bool" else "1"
+            v = str(rng.randrange(1, 9)) if t != "bool" else "1"   # for "key": 4a+b, equal (operator==) iff same a
             d = str(rng.randrange(10, 19)) if t != "bool" else "0"
             r = rng.random()
             if r < 0.30: c.append("pset %s %s %s" % (nm, t, v))
